@@ -223,13 +223,87 @@ def main(argv):
         ap.error("property id required")
     seed = int(os.environ.get("VERIF_SEED", "0") or 0)
     if a.replay:
-        mod = importlib.import_module("verif.props.%s" % a.pid.lower())
-        return mod.replay(Ctx(a.pid, a.tier, seed), a.replay)
+        return replay(a.pid, a.replay)
     try:
         return check(a.pid, a.tier, seed)
     except subprocess.TimeoutExpired as e:
         print("TIMEOUT: %s" % e)
         return 2
+
+
+def _same_failure(a, b):
+    drop = ("_found", "_unshrunk", "shrunk_from")
+    ka = {k: v for k, v in a.items() if k not in drop}
+    kb = {k: v for k, v in b.items() if k not in drop}
+    return json.dumps(ka, sort_keys=True, default=str) == json.dumps(kb, sort_keys=True, default=str)
+
+
+def replay(pid, path):
+    """Re-run one stored violation on the current tree.
+
+    A replay with a failing input is re-evaluated on the implementation (and the model) by the property module's
+    `replay_case`; modules without one regenerate the case from the recorded seed.  A replay that only names a broken
+    theorem / correspondence re-runs regeneration, build and audit.  Exit 1 when the violation is still there."""
+    with open(path) as h:
+        rp = json.load(h)
+    mod = importlib.import_module("verif.props.%s" % pid.lower())
+    f = rp.get("failure")
+    if f:
+        found = f.get("_found") or {"tier": "quick", "seed": 0}
+        print("stored failure: %s" % json.dumps({k: v for k, v in f.items() if k != "_unshrunk"}, default=str)[:1500])
+        with Lock():
+            ok, msg = run_gen()
+            lake_build(["driver"])
+        ctx = Ctx(pid, found["tier"], found["seed"])
+        ctx.driver_ok = os.path.exists(common.DRIVER)
+        again = mod.replay_case(ctx, f) if hasattr(mod, "replay_case") else None
+        if again is not None:                        # list of failures the stored input produces now
+            how = "stored input re-evaluated on the implementation"
+        else:
+            out = mod.run(ctx)
+            cands = [f] + ([f["_unshrunk"]] if "_unshrunk" in f else [])
+            again = [g for g in out.failures if any(_same_failure(g, c) for c in cands)]
+            if not again:
+                again = [g for g in out.failures if g.get("kind") == f.get("kind") and g.get("what") == f.get("what")][:1]
+            how = "case regenerated from seed %s (%s tier)" % (found["seed"], found["tier"])
+        known = load_known()
+        again = [g for g in again if not match_known(pid, g, known)]
+        if again:
+            print("now: %s" % json.dumps({k: v for k, v in again[0].items() if k != "_unshrunk"}, default=str)[:1500])
+            print("REPRODUCED property=%s (%s)" % (pid, how))
+            print("VIOLATION property=%s replay=%s" % (pid, path))
+            return 1
+        print("NOT REPRODUCED property=%s: the stored input satisfies the property on the current tree (%s)" % (pid, how))
+        return 0
+    # broken tie only
+    still = []
+    with Lock():
+        ok, msg = run_gen()
+        if not ok:
+            still.append("translator: " + msg[-300:])
+        bok, blog = lake_build(["driver"] + ["MafModel.Props.%s" % m for m in props_modules(pid)])
+        if not bok:
+            still += ["theorem: " + t for t in (failing_theorems(pid, blog) or ["Props/%s does not build" % pid])]
+        elif theorem_names(pid):
+            axioms, aerr = audit(pid)
+            if aerr:
+                still.append("audit: " + aerr[:300])
+            still += ["audit: %s depends on %s" % (t, a) for t, a in axioms.items() if [x for x in a if x not in ALLOWED_AXIOMS]]
+    if any(b.get("kind") == "correspondence" for b in rp.get("broken", [])):
+        ctx = Ctx(pid, "quick", 0)
+        ctx.driver_ok = os.path.exists(common.DRIVER)
+        out = mod.run(ctx)
+        if out.disagreements:
+            still.append("correspondence: %s" % json.dumps(out.disagreements[0], default=str)[:600])
+    for b in rp.get("broken", []):
+        print("stored: %s %s" % (b.get("kind"), b.get("name")))
+    if still:
+        for x in still:
+            print("still broken: " + x)
+        print("VIOLATION property=%s replay=%s no-failing-input-found" % (pid, path))
+        return 1
+    print("NOT REPRODUCED property=%s: theorems, audit and correspondence check on the current tree" % pid)
+    return 0
 
 
 def setup():
@@ -301,6 +375,7 @@ def check(pid, tier, seed):
     unlisted, listed = [], []
     for f in out.failures:
         k = match_known(pid, f, known)
+        f.setdefault("_found", {"tier": tier, "seed": seed})
         (listed if k else unlisted).append((f, k))
 
     searched = None
@@ -318,6 +393,7 @@ def check(pid, tier, seed):
         searched = {"cases": out2.evaluations, "seconds": st.s()}
         for f in out2.failures:
             k = match_known(pid, f, known)
+            f.setdefault("_found", {"tier": "thorough", "seed": seed + 7919})
             (listed if k else unlisted).append((f, k))
 
     violations = 0
@@ -325,11 +401,14 @@ def check(pid, tier, seed):
     os.makedirs(common.REPLAY_DIR, exist_ok=True)
     if unlisted:
         f = unlisted[0][0]
+        f0 = f
         if hasattr(mod, "shrink"):
             try:
                 f = mod.shrink(ctx, f)
             except Exception:  # noqa
                 pass
+        if f is not f0:
+            f = dict(f, _unshrunk=f0)
         rp = os.path.join("replays", "%s-%d.json" % (pid, seed))
         write_json(os.path.join(VERIF, rp), {"property": pid, "failure": f,
                                              "broken": [list(b) for b in broken],
